@@ -12,4 +12,5 @@ META = {
 
 
 def TASKS(tier):
-    return event_time_tasks(tier, 'event_time') + window_op_tasks(tier, 'window_operator', ('event_time',))
+    return event_time_tasks(tier, 'event_time') + window_op_tasks(tier, 'window_operator', ('event_time',)) + \
+        transaction_tasks(tier, 'transaction')
